@@ -88,7 +88,9 @@ def program(draw, max_depth=3):
     # "<name><counter>" suggestions pipeline2dot uses for intermediate columns
     ncol = draw(st.one_of(st.integers(1, 5), st.integers(1, 5), st.integers(10, 13)))
     pool = draw(st.sampled_from([["a", "b", "c", "d", "e", "x1", "x2", "age", "fare", "w", "u", "v", "y", "z"],
-                                 ["t", "t0", "t1", "t2", "a", "a0", "a1", "X1", "X11", "X10", "-v-0", "-v-1", "b", "b1"]]))
+                                 ["t", "t0", "t1", "t2", "a", "a0", "a1", "X1", "X11", "X10", "-v-0", "-v-1", "b", "b1"],
+                                 # names a CSV header can hold and a DOT record must escape (| < > { } " \\), spaces, dots, non-ASCII
+                                 ["a|b", "c<d", "e>f", "{g}", 'h"i', "j\\k", "l m", "n.o", "p|", "|q", "<f0>", "r", "x|y|z", "\u00e9t\u00e9", "a b|c", "u{", "}v", '""']]))
     names = draw(st.lists(st.sampled_from(pool), min_size=ncol, max_size=ncol, unique=True))
     schema = draw(st.sampled_from(["frame", "array", "names"]))
     inp = ("frame", names) if schema in ("frame", "names") else ("array", ncol)
